@@ -22,7 +22,7 @@
     are ASCII; Type pointers of constants, typedefs, fields and operations are not nil.
     Executable definitions only. *)
 From Coq Require Import String ZArith List Bool.
-From FV Require Import Base.Res Model.ParserStrings Model.ParserAst Model.Parser Model.ParserFiles.
+From FV Require Import Base.Res Model.ParserStrings Model.ParserAst Model.Parser Model.ParserFsys.
 From FV Require Model.CompilerTotal.
 Import ListNotations.
 Open Scope Z_scope.
@@ -468,6 +468,11 @@ Definition check_struct_pinned (rf : CompilerTotal.frugal) (s : struct) : vr :=
                  else if existsb (Z.eqb (f_id x)) ids then RErr (T "Duplicate field id")
                  else go t (f_id x :: ids)
      end) (s_fields s) [].
+(** validateScopes before the repair of C11-K12: the operation types only, no look at the prefix *)
+Definition check_scope_pinned (rf : CompilerTotal.frugal) (s : scope) : vr :=
+  rall (fun o => if valid_ty rf (o_type o) then ROk
+                 else RErr (cat [T "Invalid operation type "; type_name (o_type o); T " for ";
+                                 method_where (sc_name s) (o_name o)])) (sc_ops s).
 Definition cvalidate_pinned (fuel : nat) (f : frugal) (incs : list (bytes * ftree)) : vr :=
   let rf := reduce f incs in
   rand (check_services [] (fr_services f)) (fun _ =>
